@@ -35,6 +35,8 @@ LEVEL_NOTE = "bounded depth (quick 3, thorough 5); keys/values limited to the al
 FLOOR_NONTRIVIAL = 50
 
 K = [(10.0, 4), (10.0 * (1 + 2e-7), 4), (20.0, 5)]  # K1 lies within approx tolerance of K0
+K.append((10, 4))  # K3: the point K0 spelled with an int scale - the same dictionary key
+SAME_KEY = {3: 0}
 QUERIES = [
     (10.0, 4),
     (10.0 * (1 + 6e-7), 4),
@@ -84,6 +86,8 @@ def alphabet():
     for q in range(len(QUERIES)):
         ops.append(["approx", q])
     ops += [["list"], ["items"], ["unload_all"], ["reopen", "ro"], ["reopen", "rw"]]
+    # the int spelling of K0: stores and reads through it address the entry of K0
+    ops += [["set", 3, 1], ["set", 3, 2], ["get", 3], ["unload", 3], ["in", 3]]
     for q in range(len(TOL_QUERIES)):
         ops.append(["approx_tol", q])
     # `del eko.operators` (how the runner flushes), close through the context manager, copy to another archive
@@ -99,6 +103,8 @@ class Model:
 
     def step(self, op):
         """Return expected observation."""
+        if len(op) > 1 and op[0] in ("set", "get", "ctxget", "unload", "in") and op[1] in SAME_KEY:
+            op = [op[0], SAME_KEY[op[1]]] + list(op[2:])
         kind = op[0]
         if kind == "set":
             if self.mode == "ro":
